@@ -174,3 +174,133 @@ pub fn public(args: &Args) {
     out.finish();
     println!("{}", json!({"searches": n}));
 }
+
+/// Untrusted exhaustive mate solver (the certificate it prints is what TLC checks).
+enum Cert {
+    Att(Move, Box<Cert>),            // attacker plays the move, then the defender tree
+    Def(Vec<(Move, Cert)>),          // every legal reply with its attacker subtree
+    Mate,                            // defender to move is checkmated
+}
+
+fn lose_in(q: &State, n: usize, budget: &mut i64) -> Option<Cert> {
+    *budget -= 1;
+    if *budget < 0 { return None; }
+    let replies = MoveGenerator::compute_legal_moves(q);
+    if replies.is_empty() { return if q.is_check() { Some(Cert::Mate) } else { None }; }
+    if n == 0 { return None; }
+    let mut out = vec![];
+    for r in replies.moves().iter() {
+        match win_in(&r.1, n - 1, None, budget) { Some(t) => out.push((r.0, t)), None => return None }
+    }
+    Some(Cert::Def(out))
+}
+
+fn win_in(p: &State, n: usize, only: Option<Move>, budget: &mut i64) -> Option<Cert> {
+    *budget -= 1;
+    if *budget < 0 || n == 0 { return None; }
+    let moves = MoveGenerator::compute_legal_moves(p);
+    // checking moves first: forced mates mostly start with one
+    let mut order: Vec<&MoveResult> = moves.moves().iter().collect();
+    order.sort_by_key(|r| if r.1.is_check() { 0 } else { 1 });
+    for r in order {
+        if let Some(m) = only { if m != r.0 { continue; } }
+        if let Some(t) = lose_in(&r.1, n - 1, budget) { return Some(Cert::Att(r.0, Box::new(t))); }
+        if *budget < 0 { return None; }
+    }
+    None
+}
+
+fn emit_cert(out: &mut Out, id: &mut usize, parent: usize, ply: usize, p: &State, c: &Cert) {
+    *id += 1;
+    let me = *id;
+    match c {
+        Cert::Att(m, child) => {
+            out.ev(json!({"ev": "Cert", "id": me, "parent": parent, "kind": "att", "ply": ply, "pos": pos_json(p), "mv": mv_json(m)}));
+            let q = State::by_performing_move(p, m).unwrap();
+            emit_cert(out, id, me, ply + 1, &q, child);
+        }
+        Cert::Def(replies) => {
+            out.ev(json!({"ev": "Cert", "id": me, "parent": parent, "kind": "def", "ply": ply, "pos": pos_json(p), "replies": replies.iter().map(|r| mv_json(&r.0)).collect::<Vec<_>>()}));
+            for (r, t) in replies.iter() {
+                let np = State::by_performing_move(p, r).unwrap();
+                emit_cert(out, id, me, ply + 1, &np, t);
+            }
+        }
+        Cert::Mate => out.ev(json!({"ev": "Cert", "id": me, "parent": parent, "kind": "mate", "ply": ply, "pos": pos_json(p)})),
+    }
+}
+
+/// wv mate-cert --fens file --out f : for positions where the (untrusted) exhaustive solver finds a forced mate within
+/// 5 plies, prints the full strategy tree as a certificate for TLC (CertTrace.tla), then searches the position with the
+/// real engine at depth n..n+2 from fresh memory and logs claim and first move, together with a certificate that the
+/// engine's first move keeps a forced mate (when the solver can provide one within its bound).
+pub fn mate_cert(args: &Args) {
+    quiet_panics();
+    let _ = rayon::ThreadPoolBuilder::new().num_threads(8).build_global();
+    let fens = read_lines(args.get("--fens").expect("--fens"));
+    let lo: usize = args.num("--lo", 0);
+    let hi: usize = args.num("--hi", fens.len());
+    let seed: u64 = args.num("--seed", 1);
+    let node_budget: i64 = args.num("--budget", 400_000);
+    let mut out = Out::new(args.get("--out"));
+    let (mut n_roots, mut n_mates, mut n_searches, mut n_exhausted) = (0usize, 0usize, 0usize, 0usize);
+    for f in fens[lo.min(fens.len())..hi.min(fens.len())].iter() {
+        let root = state_of_fen(f);
+        n_roots += 1;
+        // minimal forced mate within 5 plies
+        let mut found: Option<(usize, Cert)> = None;
+        let mut exhausted = false;
+        for n in [1usize, 3, 5] {
+            let mut budget = node_budget;
+            if let Some(t) = win_in(&root, n, None, &mut budget) { found = Some((n, t)); break; }
+            if budget < 0 { exhausted = true; break; }
+        }
+        let Some((n, tree)) = found else {
+            if exhausted { n_exhausted += 1; }
+            continue;
+        };
+        n_mates += 1;
+        let mut id = 0usize;
+        out.ev(json!({"ev": "CertRoot", "what": "minimal", "pos": pos_json(&root), "fen": f, "n": n}));
+        emit_cert(&mut out, &mut id, 0, 0, &root, &tree);
+        out.ev(json!({"ev": "CertEnd"}));
+        for d in n..=(n + 2) {
+            for workers in [1usize, 2] {
+                if workers == 2 && d != n { continue; }
+                n_searches += 1;
+                let art = verif::new_artifact(seed ^ (d as u64 * 7919), 8, 1024);
+                let mut last: Option<(i32, bool, Move)> = None;
+                let st = root.clone();
+                let sd = seed + d as u64 * 31 + workers as u64;
+                let r = guarded(std::panic::AssertUnwindSafe(|| {
+                    verif::analyze_sync(st, sd, Some(d), Some(workers), Some(art), None, &mut |e| {
+                        if let StatusEvent::BestMove { line, evaluation } = e {
+                            if let Some(m) = line.first() { last = Some((i32::from(evaluation), evaluation.is_terminal(), *m)); }
+                        }
+                    })
+                }));
+                let (claim, eval, mv) = match (&r, last) { (Ok(_), Some((e, t, m))) => (t && e > 0, e, Some(m)), _ => (false, 0, None) };
+                // a certificate that the engine's own first move keeps a forced mate (bound: 7 plies in all)
+                let mut proved = false;
+                if let (true, Some(m)) = (claim, mv) {
+                    for nn in [n, n + 2, 7] {
+                        let mut budget = node_budget;
+                        if let Some(t) = win_in(&root, nn, Some(m), &mut budget) {
+                            let mut id2 = 0usize;
+                            out.ev(json!({"ev": "CertRoot", "what": "move", "pos": pos_json(&root), "fen": f, "n": nn}));
+                            emit_cert(&mut out, &mut id2, 0, 0, &root, &t);
+                            out.ev(json!({"ev": "CertEnd"}));
+                            proved = true;
+                            break;
+                        }
+                    }
+                }
+                out.ev(json!({"ev": "CertSearch", "fen": f, "depth": d, "workers": workers, "seed": sd.to_string(), "status": if r.is_ok() { "ok" } else { "panic" },
+                              "claim": claim, "eval": eval, "has_mv": mv.is_some(), "mv": mv.map(|m| mv_json(&m)).unwrap_or(json!({})), "first_move_proved": proved}));
+            }
+        }
+        out.flush();
+    }
+    out.finish();
+    println!("{}", json!({"roots": n_roots, "with_forced_mate_within_5": n_mates, "solver_budget_exhausted": n_exhausted, "engine_searches": n_searches}));
+}
